@@ -115,9 +115,16 @@ ChooseWrite(sameBuf, t) ==
         r   == DrawSlice(shp, TRUE)
         ext == SliceShape(shp, r)
         n   == Prod(ext)
-    IN [e |-> "SliceWrite", buf |-> h, shape |-> shp, r |-> r, aop |-> PickSeq(Aops),
+        aop == PickSeq(Aops)
+        rhs0 == DrawRhs(h, ext, n, sameBuf)
+        \* a compile-time slice that covers the whole tensor IS the tensor, and Tensor<complex> op= complex-scalar is not offered
+        \* (the scalar overloads of the in-place operators are restricted to arithmetic types): a tensor right-hand side is used instead
+        wholeFixed == \A a \in 1..Len(shp) : r[a].k \in {"all", "fseq"} /\ Extent(r[a], shp[a]) = shp[a]
+        rhs == IF Cx /\ wholeFixed /\ rhs0.k = "sc" /\ aop # "set"
+               THEN [k |-> "tn", vals |-> [q \in 1..n |-> Val(((q * 5 + 3) % 7) - 3)]] ELSE rhs0
+    IN [e |-> "SliceWrite", buf |-> h, shape |-> shp, r |-> r, aop |-> aop,
         na |-> IF sameBuf THEN PickSeq(<<1, 1, 0>>) ELSE PickSeq(<<0, 0, 0, 1>>),
-        rhs |-> DrawRhs(h, ext, n, sameBuf)]
+        rhs |-> rhs]
 \* the same view OBJECT used for two consecutive assignments (C18: repeated application on the same view object):
 \*   auto v = H(ranges);  v[.noalias()] op1= rhs1;  v[.noalias()] op2= rhs2;
 ChooseWrite2(t) ==
